@@ -81,7 +81,7 @@ extern int mpt_color_setalpha(MPT_STRUCT(color) *col, int alpha)
  */
 extern int mpt_color_pset(MPT_STRUCT(color) *col, MPT_INTERFACE(convertable) *src)
 {
-	const char *txt;
+	const char *txt = 0;
 	int type;
 	int len;
 	
